@@ -887,7 +887,7 @@ Section History.
     destruct (ms_run W H (s0, mghost0, t0) h) as [[s g] t]. cbn [fst snd] in *.
     destruct Hinv as (tg & _ & _ & _ & _ & _ & L & K & F & Hready & HL & HK & HF & _).
     assert (HWn : (1 <= Wn)%nat) by (unfold Wn; lia).
-    unfold ms_expected. fold Wn. split.
+    unfold ms_expected. unfold Wn, Hn in *. split.
     - destruct (ready_all_rows _ _ _ _ Hready) as (k & Hall). exists k.
       unfold screen. rewrite Hall. rewrite !map_app. unfold rows_equiv in HL, HK, HF. rewrite HL, HK, HF.
       rewrite map_repeat', pad_nil. now rewrite <- !app_assoc.
